@@ -333,7 +333,7 @@ def run(tier: str) -> int:
     for i, (name, src) in enumerate(progs):
         vs = [dict(vecs[(i * 3 + j * 7) % 32], append_version=bool(j & 1), original_code_as_comment=bool(j & 2), generated_comments=bool(j & 4)) for j in range(32 if tier == "thorough" else 8)]
         items.append(dict(name=name, sources=src, vectors=vs))
-    results = harness.pmap(task, items)
+    results = harness.pmap(task, items, placeholder=lambda it, st, d: dict(name=it["name"], status=st, detail=d, problems=[], outputs=0))
     outputs = 0
     for spec, r in zip(items, results):
         outputs += r["outputs"]
